@@ -125,6 +125,7 @@ func runHostile(c HostileCase) (*hostileStats, error) {
 	var failure error
 	clientClosed := false
 	recording := false
+	setUp := map[*description.Media]bool{} // medias of the recording whose Setup() returned without error
 
 	// call runs one API call under the latency rule.
 	call := func(name string, f func() error) bool {
@@ -191,6 +192,7 @@ func runHostile(c HostileCase) (*hostileStats, error) {
 			// an application that asks for a description starts a new exchange (the client may follow a redirect and drop
 			// the session altogether): it does not go on writing to the medias of the recording it had
 			recording = false
+			clear(setUp)
 			ok = call("Describe", func() error {
 				d, _, err := cl.Describe(u)
 				if err == nil {
@@ -208,12 +210,26 @@ func runHostile(c HostileCase) (*hostileStats, error) {
 			} else {
 				m, bu = recDesc.Medias[op.N%len(recDesc.Medias)], u
 			}
-			ok = call("Setup", func() error { _, err := cl.Setup(bu, m, 0, 0); return err })
+			ok = call("Setup", func() error {
+				_, err := cl.Setup(bu, m, 0, 0)
+				if err == nil {
+					setUp[m] = true
+				}
+				return err
+			})
 		case "setupall":
 			if desc != nil {
 				ok = call("SetupAll", func() error { return cl.SetupAll(desc.BaseURL, desc.Medias) })
 			} else {
-				ok = call("SetupAll", func() error { return cl.SetupAll(u, recDesc.Medias) })
+				ok = call("SetupAll", func() error {
+					err := cl.SetupAll(u, recDesc.Medias)
+					if err == nil {
+						for _, m := range recDesc.Medias {
+							setUp[m] = true
+						}
+					}
+					return err
+				})
 			}
 		case "play":
 			ok = call("Play", func() error { _, err := cl.Play(nil); return err })
@@ -233,8 +249,18 @@ func runHostile(c HostileCase) (*hostileStats, error) {
 				// writing whatever happens to the connection
 				continue
 			}
+			// (to a media whose Setup() succeeded: writing to one that was never set up is the caller's mistake)
+			var wm *description.Media
+			for _, m := range recDesc.Medias {
+				if setUp[m] && wm == nil {
+					wm = m
+				}
+			}
+			if wm == nil {
+				continue
+			}
 			ok = call("WritePacketRTP", func() error {
-				return cl.WritePacketRTP(recDesc.Medias[0], &rtp.Packet{Header: rtp.Header{Version: 2, PayloadType: 96, SequenceNumber: uint16(op.N)}, Payload: []byte{1, 2, 3}})
+				return cl.WritePacketRTP(wm, &rtp.Packet{Header: rtp.Header{Version: 2, PayloadType: wm.Formats[0].PayloadType(), SequenceNumber: uint16(op.N)}, Payload: []byte{1, 2, 3}})
 			})
 		case "idle":
 			time.Sleep(time.Duration(op.N) * time.Millisecond)
